@@ -25,6 +25,7 @@ def gen_case(rng, kind):
     model.header = rng.choice([0, 0, 1])
     if kind == "delimited":
         model.line_delimiter = rng.choice(["lf", "cr", "crlf", "any", None])
+        model.skip_initial_space = rng.random() < 0.15
     if kind == "fixed":
         model.line_delimiter = rng.choice(["lf", "cr", "crlf", "any", None, "none", "none"])
         if rng.random() < 0.25:
@@ -44,6 +45,12 @@ def gen_case(rng, kind):
     for h in range(model.header):
         header_rows.append([("H%d" % i)[: (widths[i] if widths else 9)] for i in range(len(model.fields))])
     data_rows = [r for r in table if not (r and isinstance(r[0], str) and (r[0].startswith("junk") or r[0].startswith("#")))]
+    if kind == "delimited" and model.skip_initial_space:
+        # values that start with blanks: what is written has to come back as written
+        for row in data_rows:
+            for i, cell in enumerate(row):
+                if i < len(model.fields) and model.fields[i]["type"] == "Text" and rng.random() < 0.4:
+                    row[i] = " " * rng.randint(1, 2) + cell
     if kind == "fixed":
         # callers may hand over values that are already (partly) padded with blanks: "ab" and "ab  " denote the same cell
         for row in data_rows:
@@ -202,6 +209,11 @@ def check_case(ctx, model, rows, cid_by_path=False):
         return
     ctx.count("readbacks.judged")
     data_written = written[model.header:]
+    lost_blank = model.kind == "delimited" and model.skip_initial_space and any(isinstance(c, str) and c.startswith(" ") for r in data_written for c in r)
+    if lost_blank and (any(isinstance(i, Exception) for i in back) or [list(r) for r in back] != [list(r) for r in data_written]):
+        ctx.violation("C14:skip-initial-space:leading-blank-lost", case, "a written value that starts with a blank does not come back as written under 'skip initial space'",
+                      expected=data_written, observed=[core_json(i) for i in back])
+        return
     if any(isinstance(i, Exception) for i in back):
         ctx.violation("C14:readback-rejects", case, "reading the output back rejects a row", expected=data_written, observed=[core_json(i) for i in back])
         return
